@@ -3,7 +3,7 @@
  "name": "jw_journal_write_protocol",
  "props": ["C03", "C04", "C14"],
  "level": "P",
- "tier": "wip",
+ "tier": "quick",
  "tier_after_hooks": "quick",
  "harness": "h_write",
  "replace": ["journal_add_blocks_to_trans", "journal_add_revoke_to_trans"],
@@ -29,7 +29,7 @@
  "name": "jw_journal_write_head",
  "props": ["C03"],
  "level": "P",
- "tier": "wip",
+ "tier": "quick",
  "harness": "h_write",
  "replace": ["journal_add_blocks_to_trans", "journal_add_revoke_to_trans"],
  "includes": ["debugfs", "lib/ss", "e2fsck"],
